@@ -86,7 +86,23 @@ Theorem C20_nocheck_diverges : forall (h : heap) (o : opts) (v : val),
 Proof. exact nocheck_lemma. Qed.
 Print Assumptions C20_nocheck_diverges.
 
+(* the model's checker is the one that compares both words of the reference *)
+Theorem C20_typed_identity : forall (d : nat) (h : heap) (o : opts) (ci : list nat) (v : val),
+  enc_addr (fun a => a) d h o ci v = enc d h o ci v.
+Proof. exact enc_addr_id_lemma. Qed.
+Print Assumptions C20_typed_identity.
+
 (* ---- non-vacuity ---- *)
+
+(* interior pointers: cell 0 is a *Book, cell 1 the *Header that points at the Book's embedded first
+   field (the same address, another type).  The graph is acyclic and is accepted; a checker that
+   compared addresses only (both cells at address 0) would reject it as circular. *)
+Example C20_interior_pointer_nonvacuous :
+  let h := [VStruct [VScalar; VNil NPtr; VPtr 1; VNil NPtr]; VStruct [VScalar; VNil NPtr]] in
+  enc 9 h (mkopts true false) [] (VPtr 0) = OOk [] /\
+  enc_addr (fun _ => 0) 9 h (mkopts true false) [] (VPtr 0) = OErr ECircular [0].
+Proof. vm_compute. split; reflexivity. Qed.
+
 
 Definition on : opts := mkopts true false.
 Definition off : opts := mkopts false false.
